@@ -383,7 +383,73 @@ def oracle_random(nv, argv, res):
     return None
 
 
+_LIST_NS = []
+
+
+def listing_ns():
+    if not _LIST_NS:
+        from invoke import Collection, task
+
+        @task
+        def top(c, flag=False, name="n"):
+            pass
+
+        @task
+        def mid(c):
+            pass
+
+        @task(default=True)
+        def leaf(c, pos):
+            pass
+        deeper = Collection("deeper", leaf)
+        sub = Collection("sub", mid, deeper)
+        _LIST_NS.append(Collection(top, sub))
+    return _LIST_NS[0]
+
+
+def listing_stdout(argv):
+    from invoke import Program
+    out, err = io.StringIO(), io.StringIO()
+    exc = None
+    with contextlib.redirect_stdout(out), contextlib.redirect_stderr(err):
+        try:
+            Program(namespace=listing_ns()).run(["prog"] + list(argv), exit=False)
+        except SystemExit:
+            exc = "SystemExit"
+        except Exception as e:  # noqa
+            exc = type(e).__name__
+    return {"out": out.getvalue(), "exc": exc}
+
+
+def listing_effect(case):
+    """the listing options (-l/--list, -F/--list-format, -D/--list-depth) have the same effect before the first
+    task and inside a task's argument list.  `ref` = options before the call; each variant = (position, options)."""
+    call = case["call"]
+    ref = listing_stdout(case["ref"] + call)
+    for j, opts in case["variants"]:
+        argv = call[:j] + opts + call[j:]
+        got = listing_stdout(argv)
+        if got != ref:
+            tag = ""
+            core_flags = ("-l", "--list", "-F", "--list-format", "-D", "--list-depth")
+            for a, b2 in zip(opts, opts[1:]):
+                if a in ("-l", "--list") and b2.split("=")[0] in core_flags or (b2[:2] in core_flags and not b2.startswith("--")):
+                    tag = " {core optional-value flag directly followed by a core flag inside a task context}"
+            return "[listing-placement] %r and %r differ: %r... instead of %r...%s" % (
+                case["ref"] + call, argv, (got["exc"] or got["out"])[:80], (ref["exc"] or ref["out"])[:80], tag)
+    return None
+
+
+def match_known(entry, failure):
+    if entry.get("id") == "C18-core-optional-then-core-flag":
+        return failure["why"].startswith("[listing-placement]") and "{core optional-value flag directly followed by a core flag" in failure["why"]
+    return False
+
+
 def replay(case):
+    if case.get("kind") == "listing":
+        why = listing_effect(case)
+        return why is None, why or "ok"
     if case.get("kind") == "random":
         res = run_program(case["ns"], case["argv"])
         if not res["argv_same"]:
@@ -493,4 +559,37 @@ def run(ctx):
             if why:
                 out.fail(case, why)
         compare_with_model(nv, runs, ctx, out, drv, baseline)
+    # listing options: same effect wherever they are written
+    fmts = [["-F", "nested"], ["--list-format=json"], ["-F=flat"], ["--list-format", "nested"], []]
+    depths = [["-D", "1"], ["--list-depth=2"], ["-D1"], []]
+    lists = [["-l"], ["--list"], ["-l", "sub"], ["--list=sub"]]
+    # calls as item lists: options are only inserted at item boundaries (never between a flag and its value)
+    calls = [[["top"]], [["top"], ["--flag"]], [["top"], ["--name", "x"]], [["sub.mid"]], [["top"], ["--flag"], ["sub.mid"]],
+             [["top"], ["-n", "x"], ["-f"]]]
+    for f in fmts:
+        for d in depths:
+            for l in lists:
+                for items in calls:
+                    call = [t for it in items for t in it]
+                    bounds = []
+                    acc = 0
+                    for it in items:
+                        acc += len(it)
+                        bounds.append(acc)
+                    bare = len(l) == 1 and "=" not in l[0]
+                    if bare:
+                        # a bare optional-value flag is only unambiguous before another flag or at the very end:
+                        # reference `-l <other core flags> call`, variant `call <other core flags> -l`
+                        if not (f or d):
+                            continue
+                        ref, variants = l + d + f, [(len(call), f + d + l)]
+                    else:
+                        ref = (f + d + l) if rng.random() < 0.5 else (l + d + f)
+                        variants = [(j, ref) for j in bounds]
+                    case = {"kind": "listing", "ref": ref, "call": call, "variants": variants}
+                    out.case(case, bool(f or d))
+                    out.hist["listing"] += 1
+                    why = listing_effect(case)
+                    if why:
+                        out.fail(case, why)
     return out
